@@ -443,6 +443,10 @@ func (t TransportLayerCC) Marshal() ([]byte, error) {
 
 // Unmarshal ..
 func (t *TransportLayerCC) Unmarshal(rawPacket []byte) error { //nolint:gocognit
+	// Clear any existing chunks and deltas
+	t.PacketChunks = nil
+	t.RecvDeltas = nil
+
 	if len(rawPacket) < (headerLength + ssrcLength) {
 		return errPacketTooShort
 	}
